@@ -231,6 +231,11 @@ func (op *Operation) Closest() *k_nearest_nodes.Type {
 
 func (op *Operation) startQuery() {
 	a := op.popClosestUnqueried()
+	if _, ok := op.queried[addrString(a.Addr.String())]; ok {
+		// The address was reported under several IDs and has been queried under another one since
+		// this candidate was added.
+		return
+	}
 	op.markQueried(a.Addr)
 	op.outstanding++
 	go func() {
